@@ -2,10 +2,32 @@
    files: the model at binary64, its environment filled from tables observed
    on the repository's own functions, against ParseMCNPCell.parse(). *)
 From Coq Require Import List NArith ZArith Bool String Ascii PrimFloat.
+From Coq Require Import Uint63.
 From T4V Require Import Base.Str Base.Scalar Base.Cases C15.Model C15.Canon.
 From T4V Require C12.Exec.   (* float -> Z conversions (f_roundZ), read-only *)
 Import ListNotations.
 Open Scope string_scope.
+
+(* ---- compact string literals for the generated files: 9 ASCII characters per
+   primitive integer, 7 bits each, first character in the low bits (elaborating
+   a "..." literal costs tens of microseconds per character, an int63 literal is
+   one node); mirrors harness/props/c15.py pack(), which checks itself against
+   the samples below before use ---- *)
+Fixpoint unpack (fuel : nat) (i : Uint63.int) (tail : string) : string :=
+  match fuel with
+  | O => tail
+  | S f =>
+      let c := Uint63.land i 127%uint63 in
+      if Uint63.eqb c 0%uint63 then tail
+      else String (ascii_of_N (Z.to_N (Uint63.to_Z c))) (unpack f (Uint63.lsr i 7%uint63) tail)
+  end.
+
+Definition U (l : list Uint63.int) : string := fold_right (unpack 9) "" l.
+
+Example U_selftest :
+  U [] = "" /\ U [97]%uint63 = "a" /\ U [31768959712549169]%uint63 = "12345678" /\
+  U [4139051819874441521; 48]%uint63 = "1234567890".
+Proof. vm_compute. repeat split. Qed.
 
 Definition err_eqb (a b : err) : bool :=
   match a, b with
